@@ -145,10 +145,15 @@ Fixpoint check_from (k : cst) (t : list tev) : option string :=
   end.
 Definition check_trace (t : list tev) : option string := check_from k0 t.
 
+(* a request that failed towards its caller (Send returned an error) although the node took its
+   transaction has consumed a nonce *)
+Definition error_but_accepted (l : list cop) : bool :=
+  existsb (fun o => match o with CSend _ _ _ (Accepted _) false => true | _ => false end) l.
+
 Definition violations (cs : list case) : list (N * string) :=
   flat_map (fun c => match check_trace (obs_trace (ops c)) with
                      | Some key => [(id c, key)]
-                     | None => []
+                     | None => if error_but_accepted (ops c) then [(id c, "failure-consumed"%string)] else []
                      end) cs.
 
 (* histories in which at least two transactions were accepted (so that ordering, successor and
